@@ -1,7 +1,8 @@
 (** C14 -- scripts execute exactly the command sequence their block structure
     prescribes; unbalanced scripts are diagnosed. Statements only. *)
 From Cicada Require Import Base.Chars Base.Peg Gen.LocustGrammar Model.Script Model.ScriptAst
-  Proofs.ScriptProofs Proofs.PegProofs Proofs.LocustParse Proofs.LocustBlocks.
+  Proofs.ScriptProofs Proofs.PegProofs Proofs.LocustParse Proofs.LocustBlocks
+  Model.Cmds Model.ListExec Model.CondLine Proofs.ListExecProofs Proofs.CmdsProofs Proofs.CondProofs.
 From Coq Require Import ZArith String Ascii.
 
 (** 1. The interpreter of scripting.rs (run_exp and its helpers, transcribed, with the
@@ -180,6 +181,39 @@ Definition log_words (w : list str) (_ : str) : list str * list str := (w, nil).
 Definition run_logged (text : str) : option (outcome (list str)) :=
   run_lines (list str) log_run log_words (fun w _ _ => w) (fun _ => false) 8 text nil.
 
+(** 1c. Conditions that are and-or LISTS. The oracle [run_line] of C14_interp, made concrete
+    ([run_line_of]: the line goes through execute::run_command_line -- the C03 model -- and yields
+    the statuses of the pipelines it executed), decides the head of an if / else-if / while by
+    the LAST element of that vector. For every well-formed and-or list (any `;` `&&` `||`, quoted /
+    escaped decoys, blanks) that is the final status of C03's reference semantics = the status of
+    the last EXECUTED pipeline -- not "every executed pipeline returned 0". *)
+Theorem C14_cond_list : forall (W : Type) (run : W -> str -> W * Z) w ws0 seg0 items ws_end,
+  forallb is_ws ws0 = true -> wf_seg seg0 = true -> forallb wf_item items = true -> forallb is_ws ws_end = true ->
+  last_is_zero (snd (run_line_of W run w (render_line ws0 seg0 items ws_end))) =
+  (let '(_, st, _) := ref_exec W run w (prog_of seg0 items) in Z.eqb st 0) /\
+  fst (run_line_of W run w (render_line ws0 seg0 items ws_end)) =
+  (let '(w1, _, _) := ref_exec W run w (prog_of seg0 items) in w1).
+Proof. exact cond_list_last. Qed.
+
+(** witness:  false || true  -- the first pipeline fails, the line succeeds: the condition holds
+    (an "all results are 0" test would say no), and an `if` with this head runs its then-body. *)
+Definition cl_run (w : list str) (p : str) : list str * Z :=
+  ((w ++ (p :: nil))%list, if str_eqb p (S2 "false") then 1%Z else 0%Z).
+Example C14_cond_list_witness :
+  run_line_of (list str) cl_run nil (S2 "false || true") = ((S2 "false" :: S2 "true" :: nil), (1 :: 0 :: nil)%Z) /\
+  last_is_zero (1 :: 0 :: nil)%Z = true /\ forallb (fun z => Z.eqb z 0) (1 :: 0 :: nil)%Z = false /\
+  (match run_lines (list str) (run_line_of (list str) cl_run) log_words (fun w _ _ => w) (fun _ => false) 8
+           (S2 "if false || true
+echo then
+else
+echo else
+fi
+") nil with
+   | Some (Done w _ _ _) => Some w
+   | _ => None
+   end) = Some (S2 "false" :: S2 "true" :: S2 "echo then" :: nil).
+Proof. vm_compute. repeat split. Qed.
+
 (** The start rule of the grammar regenerated from the source tree IS anchored at end of input
     (repaired in 44451af; this is re-checked against grammar.pest on every run) ... *)
 Theorem C14_anchored : top_anchored l_grammar L_EXP = true.
@@ -233,6 +267,7 @@ Proof. vm_compute. repeat split. Qed.
 
 Print Assumptions C14_interp.
 Print Assumptions C14_interp_inv.
+Print Assumptions C14_cond_list.
 Print Assumptions C14_parse_partial.
 Print Assumptions C14_parse_partial_from.
 Print Assumptions C14_parse_while_pos.
